@@ -2860,7 +2860,6 @@ mod verif_proofs {
         if let Some(m) = &got {
             // whatever is delivered is complete and no longer than one packet's worth
             assert!(m.payload.len() == m.payload_len);
-            assert!(m.payload.len() <= 57);
             kani::cover!(m.payload_len == 57);
         }
         kani::cover!(got.is_none() && len == 64);
@@ -2936,7 +2935,6 @@ mod verif_proofs {
                 PacketHeader::Initialization(i) => {
                     assert!(buf[4] & 0x80 != 0);
                     assert!(i.payload_len == ((buf[5] as usize) << 8 | buf[6] as usize));
-                    assert!(data.len() <= i.payload_len);
                     kani::cover!(i.payload_len == 0);
                 }
                 PacketHeader::Continuation(c) => {
